@@ -46,17 +46,39 @@ proofs! {
 /// reference-split + reference recogniser (covers the separator predicate, empty subtags,
 /// leading / trailing separators)
 fn bytes_exact<const L: usize, const K: usize>() {
-    let buf: [u8; L] = crate::k::bytes();
     let n = crate::k::usize();
     crate::k::assume(n <= L);
+    bytes_exact_n::<L, K>(n)
+}
+/// `n` concrete: every byte string of exactly that length (one harness per length keeps the end of
+/// the input, and with it the last subtag's end, out of the symbolic state)
+fn bytes_exact_n<const L: usize, const K: usize>(n: usize) {
+    let buf: [u8; L] = crate::k::bytes();
+    check_bytes::<L, K>(buf, n)
+}
+/// separator frame: concrete subtags, every `?` position an arbitrary byte (all 256 values): decides
+/// which bytes separate subtags, in the context of a full identifier (the token-level harnesses decide
+/// the subtag contents)
+pub fn sep_frame<const L: usize>(pat: &[u8; L]) -> [u8; L] {
+    let mut buf = *pat;
+    let mut i = 0;
+    while i < L {
+        if pat[i] == b'?' {
+            buf[i] = crate::k::u8();
+        }
+        i += 1;
+    }
+    buf
+}
+fn check_bytes<const L: usize, const K: usize>(buf: [u8; L], n: usize) {
     #[cfg(not(kani))]
     eprintln!("INPUT bytes={:?} {:?}", String::from_utf8_lossy(&buf[..n]), &buf[..n]);
     let (toks, k) = spec::split_ref::<L, K>(&buf, n);
     let inf = spec::infos(&toks);
     let (want, _) = spec::parse_langid_info(&inf, 0, k, false);
     let r = LanguageIdentifier::from_bytes(&buf[..n]);
-    cover!(r.is_ok() && k == 2);
-    cover!(r.is_err() && k == 3);
+    cover!(r.is_ok() || L < 2);
+    cover!(r.is_err());
     match (&r, &want) {
         (Ok(li), Ok(m)) => assert!(h::langid_is(li, m), "from_bytes: parsed value equals the reference canonical form"),
         (Err(e), Err(w)) => {
@@ -75,7 +97,14 @@ fn bytes_exact<const L: usize, const K: usize>() {
 pub mod bytes {
     use super::*;
     proofs! {
+    [push, sortv, boxed] fn c02_bytes_len0() { bytes_exact_n::<1, 2>(0) }
+    [push, sortv, boxed] fn c02_bytes_len1() { bytes_exact_n::<1, 2>(1) }
+    [push, sortv, boxed] fn c02_bytes_len2() { bytes_exact_n::<2, 3>(2) }
+    [push, sortv, boxed] fn c02_bytes_len3() { bytes_exact_n::<3, 4>(3) }
+    [push, sortv, boxed] fn c02_bytes_len4() { bytes_exact_n::<4, 5>(4) }
     [push, sortv, boxed] fn c02_bytes_3() { bytes_exact::<3, 4>() }
+    [push, sortv, boxed] fn c02_sep_en_us() { check_bytes::<5, 6>(sep_frame(b"en?US"), 5) }
+    [push, sortv, boxed] fn c02_sep_en_latn_us_macos() { check_bytes::<16, 17>(sep_frame(b"en?Latn?US?macos"), 16) }
     [push, sortv, boxed] fn c02_bytes_4() { bytes_exact::<4, 5>() }
     }
 }
